@@ -195,7 +195,8 @@ type c10Conn struct {
 	writes    [][]byte
 	local     *net.UDPAddr
 	remote    *net.UDPAddr
-	answerHB  int32
+	answerHB  int32 // 1: answer heartbeat requests at once, 2: hold the answers, 0: never answer
+	held      [][]byte
 }
 
 func c10NewConn(i int) *c10Conn {
@@ -233,12 +234,18 @@ func (c *c10Conn) Write(b []byte) (int, error) {
 	c.mu.Lock()
 	c.writes = append(c.writes, cp)
 	c.mu.Unlock()
-	if atomic.LoadInt32(&c.answerHB) == 1 {
+	if mode := atomic.LoadInt32(&c.answerHB); mode != 0 {
 		if m, err := message.Parse(cp); err == nil && m.MessageType() == message.MsgTypeHeartbeatRequest {
 			rsp, _ := message.NewHeartbeatResponse(m.Sequence(), ie.NewRecoveryTimeStamp(time.Unix(1700000000, 0))).Marshal()
-			select {
-			case c.q <- rsp:
-			default:
+			if mode == 2 {
+				c.mu.Lock()
+				c.held = append(c.held, rsp)
+				c.mu.Unlock()
+			} else {
+				select {
+				case c.q <- rsp:
+				default:
+				}
 			}
 		}
 	}
@@ -477,7 +484,8 @@ func (r *c10Run) setupConn() {
 		a := a
 		go func() { a.p.Serve(); atomic.StoreInt32(&a.serveRet, 1) }()
 		if a.cfg.Hb {
-			go func() { a.p.startHeartBeatMonitor(); atomic.StoreInt32(&a.hbRet, 1) }()
+			// the production way: the handler of an Association Setup Request starts the monitor
+			a.conn.q <- c10Setup()
 		}
 	}
 	// let every goroutine reach its waiting point
@@ -493,9 +501,20 @@ func (r *c10Run) setupConn() {
 	})
 }
 
+// monitors that may legitimately still run: those of associations whose Serve has not returned
+func (r *c10Run) hbOK() bool {
+	live := 0
+	for _, a := range r.assocs {
+		if a.cfg.Hb && atomic.LoadInt32(&a.serveRet) == 0 {
+			live++
+		}
+	}
+	c, _ := c10Census()
+	return c["hb_monitor"] <= live
+}
+
 func (r *c10Run) ended(a *c10Assoc) bool {
-	return atomic.LoadInt32(&a.serveRet) == 1 && r.forgotten(a.addr) >= 1 &&
-		(!a.cfg.Hb || atomic.LoadInt32(&a.hbRet) == 1)
+	return atomic.LoadInt32(&a.serveRet) == 1 && r.forgotten(a.addr) >= 1 && (!a.cfg.Hb || r.hbOK())
 }
 
 func (r *c10Run) stepConn(s c10Step) {
@@ -522,6 +541,21 @@ func (r *c10Run) stepConn(s c10Step) {
 		a.conn.tmo <- struct{}{}
 	case "hbfail": // the peer stops answering heartbeats
 		atomic.StoreInt32(&a.conn.answerHB, 0)
+	case "hb_hold": // the peer is slow: answers to heartbeat requests are held back
+		atomic.StoreInt32(&a.conn.answerHB, 2)
+	case "wait_hb_pending": // until a heartbeat request of the agent is waiting for its (held) answer
+		r.waitFor("hb-pending", c10Dur(s.Ms, 8000), func() bool {
+			a.conn.mu.Lock()
+			defer a.conn.mu.Unlock()
+			return len(a.conn.held) > 0
+		})
+	case "hb_release": // the held answers arrive now
+		a.conn.mu.Lock()
+		for _, h := range a.conn.held {
+			a.conn.q <- h
+		}
+		a.conn.held = nil
+		a.conn.mu.Unlock()
 	case "cancel": // node context cancelled (agent stopping)
 		r.cancel()
 	case "inflight": // requests answered in place
@@ -561,7 +595,7 @@ func (r *c10Run) touched() map[int]bool {
 	walk = func(ss []c10Step) {
 		for _, s := range ss {
 			switch s.Op {
-			case "release", "release_direct", "shutdown", "timeout", "hbfail", "first_release", "silent":
+			case "release", "release_direct", "shutdown", "timeout", "hbfail", "first_release", "silent", "release_nowait":
 				t[s.A] = true
 			case "cancel", "stop":
 				for i := range r.sc.Assocs {
@@ -619,7 +653,7 @@ func (r *c10Run) finishConn() c10Obs {
 		}
 		r.fmu.Unlock()
 		ao.ServeReturned = atomic.LoadInt32(&a.serveRet) == 1
-		ao.HbReturned = atomic.LoadInt32(&a.hbRet) == 1
+		ao.HbReturned = a.cfg.Hb && ao.ServeReturned && r.hbOK()
 		ao.Closed = int(atomic.LoadInt32(&a.conn.closes))
 		ao.StoreLeft = len(a.p.store.GetAllSessions())
 		ao.Replies = a.conn.replyTypes()
@@ -756,6 +790,7 @@ func (r *c10Run) stepNode(s c10Step) {
 		atomic.StoreInt32(&a.keepalive, 0)
 		atomic.StoreInt32(&a.answerHB, 0)
 	case "hbfail":
+		atomic.StoreInt32(&a.keepalive, 0)
 		atomic.StoreInt32(&a.answerHB, 0)
 	case "wait": // until the node has forgotten the association
 		r.waitFor(fmt.Sprintf("forgotten:%d", idx), c10Dur(s.Ms, 10000), func() bool { return r.lookup(a) == nil })
